@@ -50,15 +50,27 @@ pub const fn varint_byte(v: u64, i: usize) -> u8 {
     }
 }
 
-/// RFC 9000 §16: value of an encoding of announced length `n` held in `b[..n]`.
+/// RFC 9000 §16: value of an encoding of announced length `n` (1, 2, 4 or 8) held in `b[..n]`:
+/// the first byte without its two length bits, then the remaining bytes, network byte order.
+/// (Written without a loop so that harnesses can use small unwinding bounds.)
 pub fn varint_value(b: &[u8], n: usize) -> u64 {
-    let mut v: u64 = (b[0] & 0x3f) as u64;
-    let mut i = 1;
-    while i < n {
-        v = (v << 8) | b[i] as u64;
-        i += 1;
+    let b0 = (b[0] & 0x3f) as u64;
+    if n == 1 {
+        b0
+    } else if n == 2 {
+        (b0 << 8) | b[1] as u64
+    } else if n == 4 {
+        (b0 << 24) | (b[1] as u64) << 16 | (b[2] as u64) << 8 | b[3] as u64
+    } else {
+        (b0 << 56)
+            | (b[1] as u64) << 48
+            | (b[2] as u64) << 40
+            | (b[3] as u64) << 32
+            | (b[4] as u64) << 24
+            | (b[5] as u64) << 16
+            | (b[6] as u64) << 8
+            | b[7] as u64
     }
-    v
 }
 
 /// Writes the reference encoding into `out`, returns the length.
